@@ -86,7 +86,7 @@ func (w *world) download(ai, bi int) {
 		// cannot tell apart from the other one at the API.
 		removedSince := func() bool {
 			for _, r := range w.removals {
-				if r.agent == ai && r.blob == bi && (r.doneSeq == 0 || r.doneSeq > cl.beginSeq) {
+				if r.agent == ai && w.digests[r.blob] == w.digests[bi] && (r.doneSeq == 0 || r.doneSeq > cl.beginSeq) {
 					return true
 				}
 			}
@@ -118,7 +118,7 @@ func (w *world) download(ai, bi int) {
 		if errors.Is(err, scheduler.ErrTorrentRemoved) {
 			ok := false
 			for _, r := range w.removals {
-				if r.agent == ai && r.blob == bi {
+				if r.agent == ai && w.digests[r.blob] == w.digests[bi] {
 					ok = true
 				}
 			}
@@ -142,7 +142,7 @@ func (w *world) download(ai, bi int) {
 		// statement allows ("removed").
 		overlapRemoval := false
 		for _, r := range w.removals {
-			if r.agent == ai && r.blob == bi && (r.doneSeq == 0 || r.doneSeq > cl.beginSeq) {
+			if r.agent == ai && w.digests[r.blob] == w.digests[bi] && (r.doneSeq == 0 || r.doneSeq > cl.beginSeq) {
 				overlapRemoval = true
 			}
 		}
